@@ -15,7 +15,7 @@ func registerC12() {
 		Level: "exploration",
 		Rule: "PRNG sequences mixing explicit timestamps (field 253), compressed-timestamp records (all 32 offsets, rollovers, runs of up to 200) and local timestamps over " +
 			"record / monitoring / activity / lap / device_info messages, messages without a timestamp field and unknown messages, both byte orders, local types 0-3; every time " +
-			"field of every decoded message is compared with a 30-line reference state machine (ref/interp.go); one file type in six is a course file with course_point messages (field 1 is called timestamp, there is no field 253); family order-pairs: every time field defined with every base type and size 1..8, the same integer once little endian and once big endian, followed by a compressed-header record: rejected in both orders or the same times in both; family zone-grid: every local-minus-UTC difference on the quarter-hour grid from -30 h to +30 h, each also 1, 7 and 59 s to either side, and far-out values; family chains: 2-3 such sequences concatenated and decoded by DecodeChained: the time reference starts afresh in every file (a compressed record or local timestamp before a file's first explicit timestamp has no reference); non-trivial: at least one compressed record with a reference, " +
+			"field of every decoded message is compared with a 30-line reference state machine (ref/interp.go); one file type in six is a course file with course_point messages (field 1 is called timestamp, there is no field 253); family order-pairs: every time field defined with every base type and size 1..8, the same integer once little endian and once big endian, followed by a compressed-header record: rejected in both orders or the same times in both; family top-of-range: an explicit timestamp in the last 31 seconds of the 32-bit range followed by one compressed record whose offset keeps it in range (every pair, up to an advanced value of 0xFFFFFFFF exactly), then an ordinary reference and another compressed record; family zone-grid: every local-minus-UTC difference on the quarter-hour grid from -30 h to +30 h, each also 1, 7 and 59 s to either side, and far-out values; family chains: 2-3 such sequences concatenated and decoded by DecodeChained: the time reference starts afresh in every file (a compressed record or local timestamp before a file's first explicit timestamp has no reference); non-trivial: at least one compressed record with a reference, " +
 			"or a local timestamp, was compared; distinct by stream digest",
 		Assume: []string{
 			"not generated because the statement leaves them open: an explicit timestamp of value 0 followed by compressed records; field 253 in a message or definition the profile does not know",
@@ -27,6 +27,7 @@ func registerC12() {
 			{Name: "chains", N: func(t string) uint64 { return tierN(t, 6000, 200000) }, Run: c12Chain},
 			{Name: "order-pairs", N: func(t string) uint64 { return uint64(len(orderPairFields(true))) }, Run: func(c *lib.Ctx, idx uint64) { orderPairs(c, orderPairFields(true)[idx]) }},
 			{Name: "zone-grid", N: func(t string) uint64 { return uint64(len(zoneGridOffsets())) * 2 }, Run: c12ZoneGrid},
+			{Name: "top-of-range", N: func(t string) uint64 { return 31 * 32 * 2 }, Run: c12Top},
 		},
 	})
 }
@@ -78,6 +79,43 @@ func zoneGridPlan(off int64, arch byte) *ref.Plan {
 		ref.Record{Local: 2, Data: [][]byte{put(R + 20), put(uint64(R + 20 + off))}},
 	)
 	return p
+}
+
+// c12Top: an explicit timestamp T in the last 31 seconds of the 32-bit range and one compressed
+// record whose offset advances it without leaving the range - up to and including 0xFFFFFFFF,
+// which as an ADVANCED reference is a time like any other (the invalid value is a matter of
+// date_time fields as written) - then an explicit timestamp again and a second compressed run.
+func c12Top(c *lib.Ctx, idx uint64) {
+	arch := byte(idx % 2)
+	t0 := uint64(0xFFFFFFE0 + idx/2%31) // 0xFFFFFFE0 .. 0xFFFFFFFE
+	off := byte(idx / 62 % 32)
+	adv := (uint64(off) - t0&31) & 31
+	if t0+adv > 0xFFFFFFFF {
+		return // this offset would leave the range
+	}
+	put := func(v uint64) []byte {
+		b := make([]byte, 4)
+		ref.Put(b, v, 4, arch)
+		return b
+	}
+	p := &ref.Plan{HeaderSize: 14, Proto: 0x20, ProfVer: 2115}
+	p.Records = append(p.Records,
+		ref.Record{IsDef: true, Local: 0, Global: 0, Fields: []ref.FieldDef{{Num: 0, Size: 1, Base: 0}}},
+		ref.Record{Local: 0, Data: [][]byte{{4}}},
+		ref.Record{IsDef: true, Local: 1, Arch: arch, Global: 20, Fields: []ref.FieldDef{{Num: 253, Size: 4, Base: 0x86}, {Num: 3, Size: 1, Base: 0x02}}},
+		ref.Record{Local: 1, Data: [][]byte{put(t0), {60}}},
+		ref.Record{IsDef: true, Local: 2, Arch: arch, Global: 20, Fields: []ref.FieldDef{{Num: 3, Size: 1, Base: 0x02}}},
+		ref.Record{Local: 2, Compressed: true, TimeOffset: off, Data: [][]byte{{61}}},
+		ref.Record{Local: 1, Data: [][]byte{put(0x3B9ACA00), {62}}},
+		ref.Record{Local: 2, Compressed: true, TimeOffset: byte((0x3B9ACA00 + 5) & 31), Data: [][]byte{{63}}},
+	)
+	if ex, _, ok := checkPlanDecode(c, p, "top_", true); ok && ex != nil {
+		c.Count("compressed_records_advanced_into_the_last_seconds_of_the_range", 1)
+		if t0+adv == 0xFFFFFFFF {
+			c.Count("compressed_records_advanced_to_0xFFFFFFFF", 1)
+		}
+		c.Nontrivial(p.Bytes())
+	}
 }
 
 func c12ZoneGrid(c *lib.Ctx, idx uint64) {
